@@ -106,7 +106,7 @@ func runC04(c *Ctx, r *Report) {
 			okMiss := false
 			var evalCall *ssa.Call
 			for _, cc := range controlling(call.Block()) {
-				bin, ok := cc.If.Cond.(*ssa.BinOp)
+				bin, ok := cc.Cond.(*ssa.BinOp)
 				if !ok || (bin.Op != token.NEQ && bin.Op != token.EQL) {
 					continue
 				}
@@ -213,7 +213,7 @@ func runC04(c *Ctx, r *Report) {
 			n++
 			var extra []string
 			for _, cc := range controlling(in.Block()) {
-				cls := fmt.Sprintf("%s:%d", c.classifyCond(cc.If.Cond), cc.Edge)
+				cls := fmt.Sprintf("%s:%d", c.classifyCond(cc.Cond), cc.Edge)
 				if !allowed[fname][cls] {
 					extra = append(extra, cls)
 				}
@@ -301,7 +301,7 @@ func runC04(c *Ctx, r *Report) {
 		ok := false
 		for _, tc := range callsIn(fn, trigger) {
 			for _, cc := range controlling(tc.Block()) {
-				if call, isCall := cc.If.Cond.(*ssa.Call); isCall && isCallTo(call, cantCache) && cc.Edge == 0 {
+				if call, isCall := cc.Cond.(*ssa.Call); isCall && isCallTo(call, cantCache) && cc.Edge == 0 {
 					ok = true
 				}
 			}
